@@ -80,7 +80,13 @@ type SimRand struct {
 	// Fresh lists every byte string handed out through RandReader, hex encoded
 	// lazily by the engine; kept raw here.
 	Fresh [][]byte
+	// FreshBy[i] is the id of the task that drew Fresh[i] (-1: no task).
+	FreshBy []int
 }
+
+// SetIdleClock fixes what Now returns while no simulation is running (setup
+// code that constructs clock-reading objects); nil restores the real clock.
+func SetIdleClock(t *time.Time) { envClock = t }
 
 type tapeReader struct{}
 
@@ -97,6 +103,11 @@ func (tapeReader) Read(p []byte) (int, error) {
 	cp := make([]byte, len(p))
 	copy(cp, p)
 	s.Rand.Fresh = append(s.Rand.Fresh, cp)
+	by := -1
+	if s.cur != nil {
+		by = s.cur.ID
+	}
+	s.Rand.FreshBy = append(s.Rand.FreshBy, by)
 	return len(p), nil
 }
 
